@@ -75,7 +75,7 @@ def _build(ti):
             3: [F.new([tp.WildCardType(X, tp.Covariant)])],
             4: [F.new([tp.TypeParameter('Q', bound=X)])]}[gs_]
     G = tp.TypeConstructor('G', [X], gsup)
-    Y = tp.TypeParameter('Y', bound=A if gb else None)
+    Y = tp.TypeParameter('Y', univ.VAR[(ti // 3) % 3], bound=A if gb else None)
     hsup = {0: [G.new([Y])], 1: [G.new([G.new([Y])])], 2: [G.new([tp.WildCardType(Y, tp.Covariant)])],
             3: [G.new([tp.WildCardType(G.new([Y]), tp.Contravariant)])], 4: [A]}[hs_]
     H = tp.TypeConstructor('H', [Y], hsup)
@@ -84,7 +84,7 @@ def _build(ti):
     V = tp.TypeParameter('V', bound=vb)
     ksup = {0: [univ.ANY], 1: [G.new([V])], 2: [F.new([U])]}[ks]
     K = tp.TypeConstructor('K', [U, V], ksup)
-    desc = dict(F='F<%s Z>' % ['', 'out', 'in'][fv], G='G<X%s> : %s' % (' : A' if gb else '', G_SUPS[gs_]),
+    desc = dict(Yvariance=['inv', 'out', 'in'][(ti // 3) % 3], F='F<%s Z>' % ['', 'out', 'in'][fv], G='G<X%s> : %s' % (' : A' if gb else '', G_SUPS[gs_]),
                 H='H<Y> : %s' % H_SUPS[hs_], K='K<U, V : %s> : %s' % (K_BOUNDS[kb], K_SUPS[ks]))
     return [A, B], [F, G, H, K], desc
 
